@@ -21,6 +21,10 @@ pub enum CopyMode {
     All(u32),
     Dirs(u32),
     Files(u32),
+    /// chmod_dirs(a) followed by chmod_all(b) on the same builder: the later, wider call decides
+    DirsThenAll(u32, u32),
+    /// chmod_files(a) followed by chmod_all(b)
+    FilesThenAll(u32, u32),
 }
 
 #[derive(Clone, Debug, PartialEq, Eq, Hash, PartialOrd, Ord)]
@@ -215,6 +219,8 @@ fn apply_raw<V: VirtualFileSystem>(fs: &V, op: &Op) -> Outcome {
                     CopyMode::All(x) => c.chmod_all(*x),
                     CopyMode::Dirs(x) => c.chmod_dirs(*x),
                     CopyMode::Files(x) => c.chmod_files(*x),
+                    CopyMode::DirsThenAll(a, b) => c.chmod_dirs(*a).chmod_all(*b),
+                    CopyMode::FilesThenAll(a, b) => c.chmod_files(*a).chmod_all(*b),
                 };
                 c.follow(*follow).exec()
             }),
